@@ -2,6 +2,7 @@
 """False-alarm round: property-PRESERVING changes written by sub-agents (notes/BENIGN_BRIEF.md).
 
   benign.py take <candidate_dir> <name>        confirm (applies, builds, whole unedited suite green) and store as /verif/benign/<name>/
+  benign.py cross <name> <OTHER_ID> [tier]     another property's check against the change (recorded as <tier>-by-<OTHER_ID>)
   benign.py run <name>|all [quick|thorough] [seed]   run the property's check against the changed tree; the expected outcome is exit 0.
         The outcome is recorded in /verif/benign/<name>/result.json; a VIOLATION here is either a false alarm of the check
         (to be corrected) or a change that does break the property after all (recorded in meta.json: coordinator_note).
@@ -66,10 +67,10 @@ def take(cand, name):
     return True
 
 
-def run(name, tier, seed):
+def run(name, tier, seed, other=None):
     d = os.path.join(V, "benign", name)
     meta = json.load(open(os.path.join(d, "meta.json")))
-    pid = meta["property"]
+    pid = other or meta["property"]
     wt = worktree(name)
     try:
         rc, out = apply(wt, os.path.join(d, "patch.diff"))
@@ -87,7 +88,7 @@ def run(name, tier, seed):
                "repo_head": sh(["git", "-C", "/repo", "rev-parse", "--short", "HEAD"])[1].strip()}
         rp = os.path.join(d, "result.json")
         allres = json.load(open(rp)) if os.path.exists(rp) else {}
-        allres[tier + ("" if seed is None else "-seed" + seed)] = res
+        allres[tier + ("" if seed is None else "-seed" + seed) + ("" if other is None else "-by-" + other)] = res
         json.dump(allres, open(rp, "w"), indent=1)
         print("%-12s %s %-8s exit=%d %s %.0fs %s" % (name, pid, tier, rc, "SILENT" if rc == 0 else ("ALARM" if rc == 1 else "INFRA"), res["wall_s"], (first[0][:200] if first else "")))
         if rc == 2:
@@ -101,6 +102,9 @@ def main():
     a = sys.argv[1:]
     if a[0] == "take":
         sys.exit(0 if take(a[1], a[2]) else 1)
+    if a[0] == "cross":  # benign.py cross <name> <OTHER_ID> [tier]: another property's check against this change
+        run(a[1], a[3] if len(a) > 3 else "quick", None, a[2])
+        return
     if a[0] == "run":
         tier = a[2] if len(a) > 2 else "quick"
         seed = a[3] if len(a) > 3 else None
